@@ -65,6 +65,9 @@ def main() -> int:
             if any(e["file"] in touched for e in m["edits"]):
                 work.append((name, patch, m))
     stats = {"fired": 0, "silent": 0, "n/a": 0, "twin-n/a": 0}
+    from sa.check import preload
+
+    preload()
     with ProcessPoolExecutor(max_workers=16) as ex:
         for twin, mid, status, detail in ex.map(one, work, chunksize=4):
             stats[status] += 1
